@@ -365,8 +365,11 @@ class RefMatcher:
         k = enum_of_unit(self.cd.prog, self.u)
         if isinstance(t, Alt) and k is not None and any(eval_cond(t.cond, m, k.name) is not None for ms in alts for m in ms):
             used = False
+            dom = self.un.format_domain()[1]
             for members, rterms in alts.items():
-                sel = {eval_cond(t.cond, m, k.name) for m in members}
+                # formats the code refuses altogether cannot select a branch: only the accepted ones are asked
+                eff = [m for m in members if dom is None or m in dom] or list(members)
+                sel = {eval_cond(t.cond, m, k.name) for m in eff}
                 if len(sel) != 1 or None in sel:
                     self.bad(t, f"formats {members} do not select one branch of `{norm(t.cond)}`")
                     continue
